@@ -1,8 +1,11 @@
 // Copyright(C) Facebook, Inc. and its affiliates.
+#![allow(unexpected_cfgs)]
 mod error;
 mod receiver;
 mod reliable_sender;
 mod simple_sender;
+#[cfg(hotstuff_verif)]
+pub mod simnet;
 
 #[cfg(test)]
 #[path = "tests/common.rs"]
